@@ -109,14 +109,19 @@ def enabled(w: World, kmax: int) -> t.List[Ev]:
                 ev.append(("s", "extresp", i))
             ev.append(("s", "notice", i))
         ev.append(("s", "unbind", 0))
+        ev.append(("s", "extresp", kmax + 1))  # an attempt the session must refuse (unknown id)
     if w.c2s and w.s.state != S.CLOSED:
         ev.append(("d", "c2s", "next"))
         if len(w.c2s) > 1:
             ev.append(("d", "c2s", "all"))
+        if len(w.c2s) > 2:
+            ev.append(("d", "c2s", "two"))  # e.g. the tail of one PDU together with the head of the next
     if w.s2c and w.c.state != S.CLOSED:
         ev.append(("d", "s2c", "next"))
         if len(w.s2c) > 1:
             ev.append(("d", "s2c", "all"))
+        if len(w.s2c) > 2:
+            ev.append(("d", "s2c", "two"))
     return ev
 
 
@@ -155,7 +160,11 @@ def step(w: World, ev: Ev, cuts: bool) -> t.Tuple[t.Optional[World], t.Optional[
         try:
             r = CLIENT_CALLS[name][0](w2.c)
         except L.LDAPError:
-            return None, None
+            # the application learns that the call is not accepted by trying it: the attempt happens on
+            # the real session and must leave it as it was (checked observationally at quiescent states)
+            if w2.c.data_to_send():
+                return w2, (f"refused-call-left-bytes:client:{name}", f"refused client call {name} queued bytes")
+            return w2, ("__refused__", "")
         out = w2.c.data_to_send()
         if name != "unbind":
             w2.issued += 1
@@ -166,7 +175,9 @@ def step(w: World, ev: Ev, cuts: bool) -> t.Tuple[t.Optional[World], t.Optional[
         try:
             SERVER_CALLS[name][0](w2.s, i)
         except L.LDAPError:
-            return None, None
+            if w2.s.data_to_send():
+                return w2, (f"refused-call-left-bytes:server:{name}", f"refused server call {name} queued bytes")
+            return w2, ("__refused__", "")
         out = w2.s.data_to_send()
         w2.s2c += frags(out, cuts)
         w2.qs2c.append((name, i))
@@ -188,6 +199,8 @@ def step(w: World, ev: Ev, cuts: bool) -> t.Tuple[t.Optional[World], t.Optional[
         if ev[2] == "all":
             chunk = b"".join(frs)
             del frs[:]
+        elif ev[2] == "two":
+            chunk = frs.pop(0) + frs.pop(0)
         else:
             chunk = frs.pop(0)
         end = w2.s if pipe == "c2s" else w2.c
@@ -221,6 +234,9 @@ def step(w: World, ev: Ev, cuts: bool) -> t.Tuple[t.Optional[World], t.Optional[
                 v = (f"received-differs:{pipe}:{name}:{K.strip_idx(why)}", f"sent {A.src(exp)[:120]} but received {A.src(m)[:120]} ({why})")
                 break
             if pipe == "c2s":
+                if type(m).__name__ not in REQ_KIND:
+                    v = (f"terminator-returned:{type(m).__name__}", f"server.receive returned a {type(m).__name__} instead of raising")
+                    break
                 w2.srv_open[m.message_id] = (REQ_KIND[type(m).__name__], 0, 0)
     if w2.s.state == S.CLOSED:
         w2.c2s = []
@@ -263,11 +279,18 @@ def _expand(chunk: t.Tuple[int, int]) -> t.List[t.Any]:
             w2, v = step(w, ev, cuts)
             if w2 is None:
                 continue
+            if v is not None and v[0] == "__refused__":
+                v = None
+                refused = True
+            else:
+                refused = False
             q = False
             if v is None and not w2.c2s and not w2.s2c:
                 q = True
                 v = quiescent_check(w2, kmax)
             key = w2.key()
+            if refused and key == _X["keys"][idx]:
+                continue  # a refused attempt that changed nothing: not a transition
             new = key not in seen and key not in local
             if v is not None and ("C11", v[0]) not in known:
                 out.append((idx, ev, key, None, v, q))
@@ -287,7 +310,7 @@ def explore(kmax: int, cuts: bool, known: t.Set[t.Tuple[str, str]], seed: int) -
     st: t.Dict[str, t.Any] = {"states": 1, "transitions": 0, "quiescent": 0, "viol": {}, "levels": 0, "samples": [], "outcomes": set()}
     while frontier:
         st["levels"] += 1
-        _X.update(frontier=frontier, kmax=kmax, cuts=cuts, seen=seen, known=known)
+        _X.update(frontier=frontier, kmax=kmax, cuts=cuts, seen=seen, known=known, keys=[w.key() for w, _h in frontier])
         chunks = par.split(len(frontier), par.ncpu() * 4 if len(frontier) > 200 else 1)
         results = par.pmap(_expand, chunks, seed) if len(chunks) > 1 else [_expand(c) for c in chunks]
         nxt = []
@@ -326,6 +349,9 @@ def replay_history(hist: t.List[t.List[t.Any]], kmax: int, cuts: bool) -> t.Tupl
             ok = False
             break
         w = w2
+        if v is not None and v[0] == "__refused__":
+            v = None
+            lines.append(f"  {ev}: refused")
         lines.append(f"  {ev}: client {w.c.state.name} server {w.s.state.name} in-flight c2s={w.qc2s} s2c={w.qs2c}")
         if v is None and not w.c2s and not w.s2c:
             v = quiescent_check(w, kmax)
